@@ -11,6 +11,17 @@ Model of `flax/serialization.py` (with the state-dict handlers of `flax/struct.p
 NumPy is abstracted to `(dtype name, shape, C-order bytes)`; the item size of a dtype is a parameter
 `isz : String → Nat` (read from NumPy by the harness). msgpack itself is `Flax/Model/Msgpack.lean`.
 
+Domain. Targets are `Tree`s (string keys), states are `STree`s: nested plain dicts and leaves, which
+is what `to_state_dict` / `msgpack_restore` produce and what `from_state_dict` documents as its input.
+Outside that domain the model is an approximation and is not compared with the code: a FrozenDict,
+list or dataclass instance used *as a state*; an array used as the state of a dataclass target
+(`ndarray.copy()` exists, the code then fails differently); `_unchunk` on pieces of different dtypes
+(NumPy would promote); field names in a legacy namedtuple encoding that are not `str`; Python ints
+outside `[-2^63, 2^64)` (`OverflowError` in msgpack); `MAX_CHUNK_SIZE / itemsize` beyond float precision.
+
+`fromSDG true` is `_restore_namedtuple` after the `fix:` commit (legacy branch skipped when the target's
+own fields are name/fields/values), `fromSDG false` the code as shipped at the pinned commit.
+
 Core Lean only: this file is in the import closure of the compiled driver.
 -/
 import Flax.Model.Msgpack
